@@ -761,6 +761,62 @@ func c10Run(ctx *Ctx, c c10Case) {
 			}
 		}
 		nontrivial = n >= 2 && overlap > 0 && outside > 0
+		// the argument cut from the receiver itself (a view of the same collection): d = the
+		// first k / all but the first k items of c
+		if n >= 2 {
+			for _, k := range []int{1, n / 2, n - 1} {
+				for _, cut := range []string{"take", "skip"} {
+					lo, hi := 0, k
+					if cut == "skip" {
+						lo, hi = k, n
+					}
+					inCut := func(ci cmpVal) bool {
+						for j := lo; j < hi; j++ {
+							if itemEqual(ci, cmps[j]) {
+								return true
+							}
+						}
+						return false
+					}
+					var wantEx []any
+					for i, ci := range cmps {
+						if !inCut(ci) {
+							wantEx = append(wantEx, e.items[i])
+						}
+					}
+					args := []string{fmt.Sprintf("%s(%d)", cut, k)}
+					if strings.HasPrefix(c.Base, "%") && !strings.ContainsAny(c.Base, ".( ") {
+						args = append(args, fmt.Sprintf("%s.%s(%d)", c.Base, cut, k)) // a variable means the same collection everywhere
+					}
+					for _, arg := range args {
+						src := c.Base + ".exclude(" + arg + ")"
+						if out := e.eval(src); out.failed() || !sameList(out.Coll, wantEx) {
+							e.fail("exclude(d) with d cut from the receiver itself is not 'the items of c equal to no item of d'", src, out, renderItems(wantEx))
+							return
+						}
+						src = c.Base + ".intersect(" + arg + ")"
+						out := e.eval(src)
+						if out.failed() {
+							e.fail("intersect(d) fails", src, out, "a collection")
+							return
+						}
+						for i, ci := range cmps {
+							got := false
+							for _, it := range out.Coll {
+								if itemEqual(ci, itemCmp(it)) {
+									got = true
+								}
+							}
+							if got != inCut(ci) {
+								e.fail("intersect(d) with d cut from the receiver itself is not the set of common items", src, out, fmt.Sprintf("item %d (%s) present: %v", i, renderItem(e.items[i]), inCut(ci)))
+								return
+							}
+						}
+					}
+				}
+			}
+			ctx.Count("set_functions_with_argument_cut_from_receiver")
+		}
 		if c.Fn == "exclude" {
 			src := c.Base + ".exclude(%d)"
 			out := e.eval(src)
